@@ -581,5 +581,5 @@ META = {
     "note": "Sound up to the frozen tables printed in the evidence (attribute classes, documented mutators, pure numpy assumption) and call "
             "resolution by class hints/method names (unresolved calls on state objects are treated as may-mutate and listed). Exceptions are "
             "not modelled.",
-    "design_ref": "DESIGN.md 3.1, 4 (C13)",
+    "design_ref": "DESIGN.md 3.1, 4 (C13); as built: 9.1, 9.3, 9.8",
 }
